@@ -199,7 +199,7 @@ def run_cases(chk, tier):
                 chk.sample(dict(kind=kind, subtype=st, elements=els), cap=8)
         # narrow integer storage with coordinates whose products leave the storage type (the sums are still exact in float64)
         if kind in ("polygon", "multipolygon", "ring", "line", "multiline"):
-            for st, mag in (("int32", 60000), ("int16", 250), ("int64", 3 * 10 ** 6)):
+            for st, mag in (("int32", 60000), ("int16", 250), ("int16", 30000), ("int64", 3 * 10 ** 6)):
                 for _ in range(2 if tier == "quick" else 10):
                     els = [e for e in geo.structured_elements(kind, r, r.randint(2, 6), mag=mag)
                            if e is None or all(isinstance(c, int) for v in geo.verts_of(kind, e) for c in v)]
